@@ -22,6 +22,8 @@ func init() {
 }
 
 func runC06(c *Ctx) {
+	c.Rule("C06.R4", "frozen lockset: the EDF heap, its current time and its clock are only touched under the scheduler lock", 5)
+	defer runLockTables(c, "C06", nil)
 	defer c06AllHostsScheduled(c)
 	defer c06WeightsReachScheduler(c)
 	defer c06HeapChildren(c)
